@@ -312,6 +312,9 @@ func c03Gen(dstKinds, srcKinds []string, strategies []dm.Strategy) func(t *rapid
 		switch {
 		case len(c.Entry) == 0:
 			c.Source = source
+			if c.Strategy == dm.Upsert && rapid.IntRange(0, 3).Draw(t, "repeat-key") == 0 {
+				repeatAnEntry(t, m.Root(), c.Source) // the same key twice in one payload merges into one entry
+			}
 		case en.Kind == "list" && c.Entry[len(c.Entry)-1].Key == nil:
 			l, _ := sv.([]interface{})
 			if !ok || l == nil {
